@@ -641,8 +641,11 @@ def ensemble_sift(X, nensembles=4, ensemble_noise=.2, noise_mode='single',
 
     p = mp.Pool(processes=nprocesses)
 
-    noise = None
-    args = [(X, noise_scaling, noise, noise_mode, sift_thresh, max_imfs, ii, imf_opts, envelope_opts, extrema_opts)
+    # The noise for each ensemble is drawn here rather than in the workers.
+    # Forked worker processes all inherit the same random state and would
+    # otherwise add identical noise to several ensembles.
+    args = [(X, noise_scaling, np.random.randn(*X.shape), noise_mode, sift_thresh, max_imfs,
+             ii, imf_opts, envelope_opts, extrema_opts)
             for ii in range(nensembles)]
 
     res = p.starmap(_sift_with_noise, args)
